@@ -128,6 +128,7 @@ func Gen(f Focus, thorough bool) *rapid.Generator[Script] {
 			}
 			s.NilEmpty = rapid.Bool().Draw(t, "nilempty")
 		}
+		s.PreStart = rapid.IntRange(0, 3).Draw(t, "prestart") == 0
 		s.CloseGap = pick(t, "cg", int64(0), 0, T/2, T, 3*T)
 		if mode == "single" {
 			s.CloseGap = pick(t, "cg1", 3*T, 5*T+1)
